@@ -5,6 +5,7 @@
 mod sbdd;
 mod scli;
 mod sdot;
+mod sgen;
 mod shist;
 mod sset;
 mod stext;
@@ -77,6 +78,7 @@ fn main() {
         "set" => sset::main(&mut out, &o),
         "hist" => shist::main(&mut out, &o),
         "dot" => sdot::main(&mut out, &o),
+        "gen" => sgen::main(&mut out, &o),
         "replay" => {
             // re-run case lines given on stdin (op \t args [\t old-real]) against the current implementation
             let stdin = std::io::stdin();
@@ -114,6 +116,10 @@ fn replay_one(op: &str, args: &str, o: &Opts) -> String {
         },
         "tok" | "parse" | "eval" => match sx::parse(args) {
             Ok(x) => stext::replay(op, &x),
+            Err(e) => format!("(harness-error {e})"),
+        },
+        "queens" | "queensbig" | "sudoku" | "clique" | "cliquemodels" => match sx::parse(args) {
+            Ok(x) => sgen::replay(op, &x, &o.bindir),
             Err(e) => format!("(harness-error {e})"),
         },
         "dotbdd" | "dotnamed" | "dottree" => match sx::parse(args) {
